@@ -50,9 +50,12 @@ SHARDS = {"quick": 16, "thorough": 16}
 RULE = ("Hypothesis-generated specification trees (any/base/eq/set/param/arrayof/union/inter/var/"
         "message, depth<=3 quick / 4 thorough, generator steered by the pool of attributes that can "
         "reach each position so that unions are mostly class-disjoint and parameters mostly "
-        "satisfiable) over a fixed universe U of ~137 builtin attributes closed under parameters and "
+        "satisfiable) over a fixed universe U of ~170 attributes (builtin ones plus a 4-parameter test "
+        "attribute class; full grids over TensorType/MemRefType/quad parameters) closed under parameters and "
         "array elements, plus an exhaustive ordered-pair enumeration of ~45 atomic constraints as "
-        "2-alternative unions at top level / under IntegerAttr / VectorType / ArrayAttr. Each tree is "
+        "2-alternative unions at top level / under IntegerAttr / VectorType / ArrayAttr, and of unions of "
+        "two/three same-base ParamAttrConstraints that differ in every subset of parameter positions "
+        "(also folded directly with relax_constraint). Each tree is "
         "built in 4 styles (.get constructors, raw constructors, `|`/`&`/coercions, permuted unions) "
         "and `verify(attr, ctx)` is compared with an independent evaluator over indices for EVERY "
         "attribute of U under the empty context, a closed variable pre-binding, and the context left "
@@ -142,7 +145,41 @@ def _seeds():
     out += [UnrankedTensorType(f32), UnrankedTensorType(i32)]
     out += [MemRefType(i32, [4]), MemRefType(f32, [2, 2]), MemRefType(f32, [4], NoneAttr(), ia(1, i32))]
     out += [DenseArrayBase.from_list(i32, [1, 2]), DenseArrayBase.from_list(f32, [1.0])]
+    # ---- appended later (indices above stay stable): full grids over >=3-parameter classes, so that
+    # the cross product of two alternatives that differ in several parameters is inside U
+    for shape in ([2], [3]):
+        for elt in (i32, f32):
+            for enc in (NoneAttr(), sa("a")):
+                out.append(TensorType(elt, shape, enc))
+    for shape in ([4], [2, 2]):
+        for elt in (i32, f32):
+            for space in (NoneAttr(), ia(1, i32)):
+                out.append(MemRefType(elt, shape, NoneAttr(), space))
+    Q = quad_class()
+    for a in (i32, i64):
+        for b in (f32, f64):
+            for c in (sa("a"), sa("b")):
+                for d in (UnitAttr(), NoneAttr()):
+                    out.append(Q(a, b, c, d))
     return out
+
+
+_QUAD = None
+
+
+def quad_class():
+    """A small 4-parameter attribute class (all parameters unconstrained), defined with the public
+    irdl_attr_definition, to control unions of parametrized constraints that differ in several,
+    possibly non-adjacent, parameters."""
+    global _QUAD
+    if _QUAD is None:
+        from xdsl.ir import Attribute, ParametrizedAttribute
+        from xdsl.irdl import irdl_attr_definition
+        cls = type("C09Quad", (ParametrizedAttribute,),
+                   {"name": "c09.quad", "__module__": __name__,
+                    "__annotations__": {"p0": Attribute, "p1": Attribute, "p2": Attribute, "p3": Attribute}})
+        _QUAD = irdl_attr_definition(cls)
+    return _QUAD
 
 
 def tables() -> Tables:
@@ -602,6 +639,31 @@ def oracle_tree(h, r):
         except Exception as e:
             out.append(({"check": "build", "ctor": tree[0], "dir": "crash:" + type(e).__name__,
                          "where": where(e)}, f"style {style}: {type(e).__name__}: {e}"))
+    if tree[0] == "union" and len(tree[1]) >= 2:
+        # AttrConstraint.relax_constraint is documented to return the merge of the two constraints
+        # (or None): folded over the alternatives it must accept exactly what the union describes
+        for style in ("get", "raw"):
+            try:
+                alts = [try_build(c, style, T, perm) for c in tree[1]]
+                cur = alts[0]
+                for b in alts[1:]:
+                    cur = cur.relax_constraint(b)
+                    if cur is None:
+                        break
+            except BuildRejected as e:
+                h.discard(f"build_relax_{style}_{e.label}")
+                continue
+            except RecursionError:
+                raise
+            except Exception as e:
+                out.append(({"check": "build", "ctor": "relax_constraint", "dir": "crash:" + type(e).__name__,
+                             "where": where(e)}, f"relax_constraint fold ({style}): {type(e).__name__}: {e}"))
+                continue
+            if cur is None:
+                h.count("relax_returned_none")
+            else:
+                h.count("relax_merged")
+                built["relax_" + style] = cur
     if not built:
         return out, nontrivial_tree(tree), "unbuildable"
     primary = "get" if "get" in built else sorted(built)[0]
@@ -973,10 +1035,17 @@ def tree_strategy(T, maxdepth):
             a = alt_for_class(draw, cls, pool, depth - 1, vtab)
             if a[0] == "param" and draw(st.integers(0, 2)) > 0:
                 b = ["param", a[1], list(a[2])]
-                j = draw(st.integers(0, len(a[2]) - 1))
+                ar = len(a[2])
+                nd = min(ar, draw(st.sampled_from([1, 1, 2, 2, 3])))
                 members = [i for i in pool if T.CLS[i] == cls] or list(T.by_class[cls])
-                sub = tuple(sorted({T.PARAMS[i][j] for i in members}))
-                b[2][j] = draw(tree(sub, max(depth - 2, 0), vtab))
+                for j in draw(st.lists(st.integers(0, ar - 1), min_size=nd, max_size=nd, unique=True)):
+                    sub = tuple(sorted({T.PARAMS[i][j] for i in members}))
+                    if draw(st.booleans()):
+                        b[2][j] = ["eq", draw(st.sampled_from(sub))]
+                        if a[2][j][0] == "any" and draw(st.booleans()):
+                            a[2][j] = ["eq", draw(st.sampled_from(sub))]
+                    else:
+                        b[2][j] = draw(tree(sub, max(depth - 2, 0), vtab))
             else:
                 b = alt_for_class(draw, cls, pool, depth - 1, vtab)
             alts = [a, b]
@@ -1167,8 +1236,70 @@ def atoms(T):
     return out
 
 
+def param_union_cases(T):
+    """Unions of two / three ParamAttrConstraints of the same base that differ in every subset of the
+    parameter positions (0, 1, 2, ... differences; adjacent and non-adjacent), the other positions
+    sharing one constraint. Alternatives are read off member attributes of U, so the cross product of
+    the differing parameters is (for the grid classes) inside U."""
+    n = 0
+    for cls in T.param_classes:
+        ar = T.arity[cls]
+        mem = T.by_class[cls]
+        k = 5 if ar >= 3 else 3
+        if cls == "C09Quad":
+            picks = [mem[0], mem[-1], mem[5], mem[10], mem[3]]
+        else:
+            step = max(1, len(mem) // k)
+            picks = list(mem[::step][:k])
+            if mem[-1] not in picks:
+                picks.append(mem[-1])
+        for m1, m2 in itertools.permutations(picks, 2):
+            p1, p2 = T.PARAMS[m1], T.PARAMS[m2]
+            diffpos = [j for j in range(ar) if p1[j] != p2[j]]
+            for r in range(len(diffpos) + 1):
+                for D in itertools.combinations(diffpos, r):
+                    for shared in ("any", "base", "set"):
+                        for dform in ("eq", "base"):
+                            if dform == "base" and (not D or any(T.CLS[p1[j]] == T.CLS[p2[j]] for j in D)):
+                                continue
+                            a, b = [], []
+                            for j in range(ar):
+                                if j in D:
+                                    a.append(["eq", p1[j]] if dform == "eq" else ["base", T.CLS[p1[j]]])
+                                    b.append(["eq", p2[j]] if dform == "eq" else ["base", T.CLS[p2[j]]])
+                                    continue
+                                if shared == "base" and T.CLS[p1[j]] == T.CLS[p2[j]]:
+                                    c = ["base", T.CLS[p1[j]]]
+                                elif shared == "set":
+                                    c = ["set", sorted({p1[j], p2[j]})]
+                                else:
+                                    c = ["any"]
+                                a.append(c)
+                                b.append(c)
+                            n += 1
+                            yield {"kind": "tree", "tree": ["union", [["param", cls, a], ["param", cls, b]]],
+                                   "pre": [], "seed": None, "perm": n % 14}
+        if ar < 3:
+            continue
+        # three alternatives: alternative k takes the parameters of member k at positions Dk
+        subsets = [D for r in range(1, ar + 1) for D in itertools.combinations(range(ar), r)]
+        for m1, m2, m3 in [tuple(picks[:3]), (picks[1], picks[2], picks[0])]:
+            ps = [T.PARAMS[m1], T.PARAMS[m2], T.PARAMS[m3]]
+            for D2 in subsets:
+                for D3 in subsets:
+                    alts = [[["eq", ps[0][j]] if (j in D2 or j in D3) else ["any"] for j in range(ar)]]
+                    for pk, Dk in ((ps[1], D2), (ps[2], D3)):
+                        alts.append([["eq", pk[j]] if j in Dk else alts[0][j] for j in range(ar)])
+                    n += 1
+                    yield {"kind": "tree", "tree": ["union", [["param", cls, c] for c in alts]],
+                           "pre": [], "seed": None, "perm": n % 14}
+
+
 def checks(h):
     T = tables()
+    for n, r in enumerate(param_union_cases(T)):
+        if n % h.nshards == h.shard:
+            run_recipe(h, r, "punion_", distinct=True)
     ats = atoms(T)
     wrappers = [
         lambda u: u,
